@@ -41,11 +41,15 @@ git -C /repo checkout -- .
 git -C /repo status --short | head -3
 fi
 if [ $ONLY = wtchecks ]; then
-echo "== checks against the worktree itself (VERIF_REPO_DIR), /repo untouched"
+echo "== checks against a scratch copy of /repo's current tree with the patch applied (VERIF_REPO_DIR), /repo untouched"
+SCR=$(mktemp -d /tmp/seedscr.XXXXXX)
+rsync -a --exclude .git /repo/ $SCR/
+if ! (cd $SCR && patch -p1 -s < $OUT/patch.diff); then echo "patch does not apply to the current /repo tree"; rm -rf $SCR; exit 2; fi
 for p in $PROPS; do
-  VERIF_REPO_DIR=$WT /verif/check $p --budget ${SEED_BUDGET:-20} > $OUT/wtcheck_$p.txt 2>&1; rc=$?
+  VERIF_REPO_DIR=$SCR /verif/check $p --budget ${SEED_BUDGET:-20} > $OUT/wtcheck_$p.txt 2>&1; rc=$?
   res="$res $p:$rc"
   grep -m2 "^  C\|VIOLATION\|INCONCLUSIVE" $OUT/wtcheck_$p.txt | head -3
 done
+rm -rf $SCR
 fi
 echo "RESULT $NAME demo_with=$with demo_without=$without suite=$suite checks=$res"
